@@ -21,6 +21,35 @@ let eval (op : string) (args : sx list) : sx list =
   | "origin_block", [n; p] ->
     let (o, s) = origin_block_parser (z_of_sx n) (st_of (bytes_of_sx p)) in
     sx_of_out (fun b -> [sx_of_bytes b; rest_len s]) o
+  | "loc_shift", [l; i; n] -> sx_of_out (fun r -> [sx_of_loc r]) (shift (loc_of_sx l) (z_of_sx i) (z_of_sx n))
+  | "loc_expand", [l; i; n] -> sx_of_out (fun r -> [sx_of_loc r]) (expand (loc_of_sx l) (z_of_sx i) (z_of_sx n))
+  | "loc_reverse", [l; n] -> sx_of_out (fun r -> [sx_of_loc r]) (reverse (loc_of_sx l) (z_of_sx n))
+  | "loc_normalize", [l; n] -> sx_of_out (fun r -> [sx_of_loc r]) (normalize (loc_of_sx l) (z_of_sx n))
+  | "loc_join", [ls] -> sx_of_out (fun r -> [sx_of_loc r]) (join (list_of_sx loc_of_sx ls))
+  | "loc_order", [ls] -> sx_of_out (fun r -> [sx_of_loc r]) (order (list_of_sx loc_of_sx ls))
+  | "loc_complement", [l] -> [A "ok"; sx_of_loc (complement (loc_of_sx l))]
+  | "loc_show", [l] -> [A "ok"; sx_of_bytes (Model.show (loc_of_sx l))]
+  | "loc_len", [l] -> [A "ok"; sx_of_z (loc_len (loc_of_sx l))]
+  | "loc_less", [a; b] -> [A "ok"; sx_of_bool (loc_less (loc_of_sx a) (loc_of_sx b))]
+  | "loc_within", [l; a; b] -> [A "ok"; sx_of_bool (loc_within (loc_of_sx l) (z_of_sx a) (z_of_sx b))]
+  | "loc_overlap", [l; a; b] -> [A "ok"; sx_of_bool (loc_overlap (loc_of_sx l) (z_of_sx a) (z_of_sx b))]
+  | "loc_region", [l] -> [A "ok"; sx_of_region (loc_region (loc_of_sx l))]
+  | "loc_strand", [l] -> [A "ok"; sx_of_z (check_strand (loc_of_sx l))]
+  | "loc_den", [l] -> [A "ok"; sx_of_den (den (loc_of_sx l))]
+  | "loc_ascomplete", [l] -> [A "ok"; sx_of_loc (as_complete (loc_of_sx l))]
+  | "region_den", [r] -> [A "ok"; sx_of_den (region_den (region_of_sx r))]
+  | "fs_insert", [L fs; f] -> [A "ok"; L (List.map sx_of_feature (fs_insert (List.map feature_of_sx fs) (feature_of_sx f)))]
+  | "seq_insert", [h; i; g] -> sx_of_out (fun r -> [sx_of_seq r]) (seq_insert (seq_of_sx h) (z_of_sx i) (seq_of_sx g))
+  | "seq_embed", [h; i; g] -> sx_of_out (fun r -> [sx_of_seq r]) (seq_embed (seq_of_sx h) (z_of_sx i) (seq_of_sx g))
+  | "seq_delete", [s; i; n] -> sx_of_out (fun r -> [sx_of_seq r]) (seq_delete (seq_of_sx s) (z_of_sx i) (z_of_sx n))
+  | "seq_erase", [s; i; n] -> sx_of_out (fun r -> [sx_of_seq r]) (seq_erase (seq_of_sx s) (z_of_sx i) (z_of_sx n))
+  | "seq_slice", [s; a; b] -> sx_of_out (fun r -> [sx_of_seq r]) (seq_slice (seq_of_sx s) (z_of_sx a) (z_of_sx b))
+  | "seq_rotate", [s; n] -> sx_of_out (fun r -> [sx_of_seq r]) (seq_rotate (seq_of_sx s) (z_of_sx n))
+  | "seq_reverse", [s] -> sx_of_out (fun r -> [sx_of_seq r]) (seq_reverse (seq_of_sx s))
+  | "seq_complement", [s] -> sx_of_out (fun r -> [sx_of_seq r]) (seq_complement (seq_of_sx s))
+  | "seq_transcribe", [s] -> sx_of_out (fun r -> [sx_of_seq r]) (seq_transcribe (seq_of_sx s))
+  | "seq_concat", [L ss] -> sx_of_out (fun r -> [sx_of_seq r]) (seq_concat (List.map seq_of_sx ss))
+  | "seq_locate", [r; s] -> sx_of_out (fun r -> [sx_of_seq r]) (locate (region_of_sx r) (seq_of_sx s))
   | _ -> [A "unknown-op"]
 
 let () =
